@@ -164,9 +164,12 @@ def r3_slice_patterns(text: str, scrutinee: str) -> Tuple[str, int]:
         T = code_toks(lex(text))
         for i, t in enumerate(T):
             if t.text == "[" and i > 0 and T[i - 1].text == ",":
-                cb = match_close(T, i)
+                cb0 = match_close(T, i)
+                cb = cb0
+                if cb + 1 < len(T) and T[cb + 1].text == ",":
+                    cb += 1          # trailing comma inside the tuple pattern
                 if cb + 2 < len(T) and T[cb + 1].text == ")" and T[cb + 2].text == "=>":
-                    names = [x for x in T[i + 1:cb] if x.text != ","]
+                    names = [x for x in T[i + 1:cb0] if x.text != ","]
                     if not all(x.kind == "ident" for x in names):
                         raise RewriteError("unsupported slice pattern")
                     n = len(names)
